@@ -13,6 +13,7 @@ RULE = ("solve_{pubo,qubo,puso,quso}_bruteforce on raw dicts and all ten model t
         "constraints). Oracle: independent enumeration with the same predicate; argument snapshot. Non-trivial = "
         ">= 2 variables and the valid set has >= 2 elements; distinct = digest of (function, type, terms, predicate)"
         ' Also: raw keys / explicit zero coefficients / huge offsets in dict inputs, predicates that read the model, omitted `valid`, typed coefficients, the answer to an infeasible call belongs to the caller (what it writes into it never reappears), an infinite constant, second call after the caller edited the first answer.')
+RULE += " Rounds 9-10: second solve of the same model object after an in-place edit (negated, coefficient changed, constraint recorded with lam=0)."
 TIERS = {"quick": {"shards": 8, "cases": 6000}, "thorough": {"shards": 16, "cases": 30000}}
 FLOOR_BASE = {"quick": 600, "thorough": 8000}    # case counts the floors below were calibrated for; the launcher scales them
 FUNCS = {("bool", False): "solve_pubo_bruteforce", ("bool", True): "solve_qubo_bruteforce",
